@@ -15,6 +15,8 @@ REJECTING = {"${"}
 SMART = {"\u2019": "'", "\u2018": "'", "\u201c": '"', "\u201d": '"'}
 
 CTL = ["\x00", "\x01", "\x08", "\x0b", "\x0c", "\x0e", "\x1f", "\ufffe", "\uffff"]
+# halves of surrogate pairs: no XML character either; only str-typed input (a dict, e.g. loaded from JSON text with a \\ud800 escape) can carry them
+SURROGATES = ["\ud800", "\udbff", "\udc00", "\udfff"]
 
 
 def hostile(rng, tag, n=(1, 4), allow=None, ws=False):
